@@ -103,6 +103,12 @@ CHECKS.update({
    text="(A) all sequences to depth 3-7 and <=1..2-deviation sequences to depth 12-90 (default: a pass every 1000 ms) over housekeeping passes at 990/1000/1010/2000 ms, keepalive echoes (timely, late > 10 s, future, zero timestamp, truncated), client bursts left queued, flush ticks, NAKs, duplicate REG3, receiver close and a 5 s clock jump, from established / live / timed-out start states for 2 and 4 links: never two consecutive passes without a keepalive on a connected, not-timed-out link; every keepalive frame is checked field by field against the link's pre-pass values. (B) all sequences to depth 6-8 over probe arming, echoes with ts in {now, now-1, now-20, now-10000, now-10001, now+5, 0}, truncated and over-long echoes, reset and a clock jump on the real tracker: a sample iff probe outstanding, >= 10 bytes, 0 < now-ts <= 10000; all sample sequences over {1,2,50,9999,10000}^<=8..10 through the real smoother stay finite and non-negative.",
    note="Trusted: glue mirror + fingerprint; the monitors. 'Two housekeeping periods' is judged as 'two consecutive passes without a keepalive'.",
    design="3/C14"),
+ "C08": dict(
+   engine="seqx+world",
+   technique="exhaustive fault-schedule exploration over virtual time in the mirrored event loop (all placements of <=k fault/repair events in a run of D one-second closed-loop steps) with a temporal monitor; full product of the pure back-off predicate",
+   text="Every placement of at most 1-3 fault / repair events (per link: black hole, lost handshake replies, REG_ERR answers, socket send errors via a closed receiver port, socket re-creation errors via the UplinkBinder seam; globally: the receiver forgetting the group) in runs of 14-140 one-second steps (housekeeping pass, a fake receiver answering exactly what it saw on non-faulted links, client traffic or an idle sender, ACKs), for 2-4 links, connection timeouts 1000/5000/15000/60000 ms and both modes. The monitor checks teardown-only-for-cause against the timeout configured in DynamicConfig, the minimum and maximum spacing of reconnect attempts, the 30 s rejoin bound with clean accounting at the connecting step, and that survivors keep carrying the stream. The back-off predicate is swept for every failure count incl. u32::MAX.",
+   note="Trusted: glue mirror + fingerprint, the fake receiver (about 60 lines), the temporal monitor. 'Retried forever' is decided up to the horizon plus the pure arithmetic; the 30 s bound assumes local socket re-creation succeeds.",
+   design="3/C08"),
 })
 
 NOT_YET = {
